@@ -1266,8 +1266,11 @@ func mergeChunks(chunks []*MessageChunk) ([]byte, error) {
 
 	var b []byte
 	var seqnr uint32
-	for _, c := range chunks {
-		if c.SequenceHeader.SequenceNumber == seqnr {
+	for i, c := range chunks {
+		// The first chunk has no predecessor to be a duplicate of. Sequence
+		// numbers may legally be 0 (after a roll-over), so the zero value of
+		// seqnr must not be mistaken for "same as the previous chunk".
+		if i > 0 && c.SequenceHeader.SequenceNumber == seqnr {
 			continue // duplicate chunk
 		}
 		seqnr = c.SequenceHeader.SequenceNumber
